@@ -81,7 +81,7 @@ def run(ctx):
 
 
 def leg_d(ctx, q, W, X):
-    ctx.design("Form/Multipart.tla", "Multipart_quick.cfg" if q else "Multipart.cfg", workers=W, timeout=1500, heap="16g",
+    ctx.design("Form/Multipart.tla", "Multipart_quick.cfg" if q else "Multipart.cfg", workers=W, timeout=1500, heap="6g",
                deadlock_off=True, extra=X, note="bodies = 4 starting points x all tails over {CR,LF,-,B,X,(H)} x every chunking x declared length")
     ctx.design("Form/Multipart.tla", "Multipart_limits.cfg", workers=W, timeout=600, deadlock_off=True, extra=X,
                note="part-size limit 0..2 around the part sizes")
